@@ -351,6 +351,19 @@ def r03_4(ck, sa):
     f = rf.fi
     cfg = rf.cfg
     defs = local_defs(f.node)
+    # rounding happens only when a precision is set: round(x, None) rounds
+    # to whole numbers and would destroy fractional timesteps
+    for c in A.calls_in(f.node, 'round'):
+        if len(c.args) == 2 and 'global_time_precision' in A.unparse(
+                c.args[1]):
+            g = cfg.guards(cfg.node(c))
+            ck.require(('isnot', 'self.global_time_precision', 'None') in g,
+                       'R03.4', f, c,
+                       'times are rounded only when a precision is set',
+                       'a time is rounded to global_time_precision also '
+                       'when none is set: round(x, None) gives a whole '
+                       'number, so fractional timesteps collapse onto the '
+                       'integers', c)
     # variables: the name stored as due time, and the emit clock
     names = set()
     for (stmt, tgt, val, ek) in rf.front.slot_writes('time'):
